@@ -24,7 +24,9 @@ deriving Repr
 
 def digitR : List (Char × Char) := [('0', '9')]
 def wordR : List (Char × Char) := [('a', 'z'), ('A', 'Z'), ('0', '9'), ('_', '_')]
-def spaceR : List (Char × Char) := [(' ', ' '), ('\t', '\t'), ('\n', '\n'), ('\r', '\r')]
+/-- ECMA-262 WhiteSpace + LineTerminator -/
+def spaceR : List (Char × Char) := [(' ', ' '), ('\t', '\r'), ('\u00a0', '\u00a0'), ('\u1680', '\u1680'), ('\u2000', '\u200a'),
+  ('\u2028', '\u2029'), ('\u202f', '\u202f'), ('\u205f', '\u205f'), ('\u3000', '\u3000'), ('\ufeff', '\ufeff')]
 
 partial def parseClass (cs : List Char) (acc : List (Char × Char)) : Option (List (Char × Char) × List Char) :=
   match cs with
@@ -69,6 +71,11 @@ partial def parsePieces (cs : List Char) (acc : List Piece) : Option (List Piece
       | '\\', 'd' :: r' => some (.cls false digitR, r')
       | '\\', 'w' :: r' => some (.cls false wordR, r')
       | '\\', 's' :: r' => some (.cls false spaceR, r')
+      | '\\', 'S' :: r' => some (.cls true spaceR, r')
+      | '\\', 'D' :: r' => some (.cls true digitR, r')
+      | '\\', 'W' :: r' => some (.cls true wordR, r')
+      | '\\', 'b' :: _ => none
+      | '\\', 'B' :: _ => none
       | '\\', c' :: r' => some (.lit c', r')
       | '(', _ => none
       | ')', _ => none
@@ -89,7 +96,7 @@ def parse (p : String) : Option Pat :=
 def atomMatches (a : Atom) (c : Char) : Bool :=
   match a with
   | .lit l => l == c
-  | .any => c != '\n'
+  | .any => c != '\n' && c != '\r' && c != '\u2028' && c != '\u2029'   -- ECMA-262 line terminators
   | .cls neg rs => (rs.any (fun (lo, hi) => lo ≤ c && c ≤ hi)) != neg
 
 /-- match pieces at the head of `s`; greedy with backtracking -/
